@@ -309,14 +309,18 @@ def gen_resp(rng, t=None):
     if t == 'readDeviceInfo':
         ids = sorted(set(rng.choice([0, 1, 2, 3, 6, 0x80, 0xFF, rng.randrange(256)]) for _ in range(rng.randrange(0, 6))))
         info, room = [], 247
+        nobj = 0
         for k in ids:
-            v = bytes_(rng, rng.choice([0, 1, 5, 20, 60]))
-            if room - (2 + len(v)) <= 0:
+            # an object id may occur several times in one response (the decoder then keeps a list of values)
+            vs = [bytes_(rng, rng.choice([0, 0, 1, 5, 20, 60])) for _ in range(rng.choice([1, 1, 1, 2, 3]))]
+            need = sum(2 + len(v) for v in vs)
+            if room - need <= 0:
                 break
-            room -= 2 + len(v)
-            info.append([k, [v]])
+            room -= need
+            nobj += len(vs)
+            info.append([k, vs])
         return {'t': t, 'read_code': rng.choice([1, 2, 3, 4]), 'conformity': rng.choice([0x01, 0x81, 0x83]),
-                'more_follows': rng.choice([0, 0, 0xFF]), 'next_object_id': u8(rng), 'number_of_objects': len(info),
+                'more_follows': rng.choice([0, 0, 0xFF]), 'next_object_id': u8(rng), 'number_of_objects': nobj,
                 'information': info}
     if t == 'exception':
         return {'t': t, 'fc': rng.choice([1, 2, 3, 4, 5, 6, 7, 8, 11, 12, 15, 16, 17, 20, 21, 22, 23, 24, 43, rng.randrange(1, 128)]),
